@@ -45,6 +45,7 @@ def stages_for(replay, tier, extra=None):
             v1("V1_2f", replay, 2, 3, "{1,2,5}", extra=extra),                              # 29 791
             v1("V1_nest", replay, 2, 2, "{11,12}", types='{"O"}', shape="nested", extra=extra),   # 5 324
             v1("V1_twin", replay, 2, 2, "{11,12}", types='{"O"}', shape="twin", extra=extra),     # 14 641
+            v1("V1_deep", replay, 2, 3, "{11,12}", types='{"O"}', shape="deep", extra=extra),
         ]
     return [
         g("V4", replay, "V4", leafs="V4_Leafs", comps="V4_Comps", inlines="V4_Inlines", maxsel=2, maxnodes=4, maxdepth=3,
@@ -64,6 +65,7 @@ def stages_for(replay, tier, extra=None):
         v1("V1_3f", replay, 3, 3, "{1,2}", timeout=3000, extra=extra),                      # 279 841
         v1("V1_nest", replay, 2, 2, "{11,12,15}", types='{"O"}', shape="nested", extra=extra),
         v1("V1_twin", replay, 2, 3, "{11,12,15}", types='{"O"}', shape="twin", timeout=3000, extra=extra),
+        v1("V1_deep", replay, 3, 3, "{11,12}", types='{"O"}', shape="deep", timeout=3000, extra=extra),
     ]
 
 
